@@ -288,6 +288,7 @@ def _b_int(x=0, *a):
         rt, xt = r.t, x.t
         cur().assume(SB(z3.If(xt >= 0, z3.And(z3.ToReal(rt) <= xt, xt < z3.ToReal(rt) + 1),
                               z3.And(z3.ToReal(rt) >= xt, xt > z3.ToReal(rt) - 1))))
+        cur().assume(SB(z3.IsInt(xt) == (z3.ToReal(rt) == xt)))    # consequence, stated for the solvers' benefit
         return r
     if isinstance(x, SB):
         return site(x, 1, 0)
@@ -295,6 +296,8 @@ def _b_int(x=0, *a):
 
 
 def _b_float(x=0):
+    if hasattr(x, "__pyvc_float__"):
+        return x.__pyvc_float__()
     if isinstance(x, (SR, Fraction)):
         return x
     if isinstance(x, SI):
